@@ -18,6 +18,8 @@ import QV.Lemmas.StoreIO
 import QV.Props.C20
 
 namespace QV.Props
+namespace C11
+open QV.Props.C20
 open QV QV.Store
 
 /-! ### specification vocabulary -/
@@ -781,4 +783,5 @@ example :
     (step w (.save 2 (some 0) 0)).2 = none ∧ (step w (.save 2 (some 1) 0)).2 = none := by
   decide
 
+end C11
 end QV.Props
